@@ -3,7 +3,6 @@
 package work
 
 import (
-	"strings"
 	"bytes"
 	"context"
 	"fmt"
